@@ -71,7 +71,7 @@ def roundtrip(rc, eng, table, dlm, policy, encoding, line_sep):
         out = io.StringIO() if encoding is None else io.BytesIO()
         w = rc.CSVWriter(out, False, encoding, dlm, policy, line_separator=line_sep)
         for rec in table:
-            w.write(list(rec))
+            w.write([list(f) if isinstance(f, list) else f for f in rec])       # private copies, also of list-valued cells: the writer normalises them in place
         w.finish()
         ww = w.get_warnings()
         data = out.getvalue()
